@@ -30,6 +30,21 @@ def provider():
     return d
 
 
+if "__init__" in rec.get("id", "") or rec.get("id", "").endswith("cross-check"):
+    # native: two providers built by the REAL constructor; a C-CANCEL received by one must not be visible to the other
+    a1 = types.SimpleNamespace(get_handlers=lambda e: [], _serve_request=lambda *a: None)
+    a2 = types.SimpleNamespace(get_handlers=lambda e: [], _serve_request=lambda *a: None)
+    d1, d2 = DIMSEServiceProvider(a1), DIMSEServiceProvider(a2)
+    for pd in cancel_pdata(5):
+        d1.receive_primitive(pd)
+    seen_by_other = 5 in d2.cancel_req
+    own = d1.cancel_req is d2.cancel_req or d1.msg_queue is d2.msg_queue
+    if seen_by_other or own:
+        done(True, input="two associations (two DIMSEServiceProvider instances); a C-CANCEL for message id 5 arrives on the first",
+             observed={"the second association's pending cancels": sorted(d2.cancel_req), "both share one map / queue": own},
+             expected="the second association sees no pending cancel")
+    if "__init__" in rec.get("id", ""):
+        done(False, note="every provider has its own pending-cancel map and queue")
 bad = None
 for n_other in (0, 1, 9, 10, 11, 15):
     d = provider()
